@@ -4,6 +4,9 @@
 // verdict that the call must be refused (incomplete output pattern without allow_incomplete).  Values are small
 // integers / dyadic scalars: every correct evaluation is exact and compared with ==; sqrt based norms through
 // |r^2 - N| <= 4 eps N with N the specification's exact integer.
+// Groups "delem" / "dmul" run on DenseMatrix: axpy / scale / norm_frobenius and the four overloads of multiply
+// (result matrix with the prior contents of the specification's X, or - call.dirty - with non-finite prior contents,
+// which the plain products must overwrite; left factor dense or CSR incl. the entry-free states; z == this aliasing).
 #include "vharness.hpp"
 #include "vlafem.hpp"
 #include <limits>
@@ -14,13 +17,14 @@ using namespace vl;
 struct Ctx
 {
   const vj::Value& c;
-  std::string op; long long an, ad, den; bool self, allow; long long eps; IVec s, vres; std::string vkind, skind, outcome; long long sres;
+  std::string op; long long an, ad, bn, bd, den; bool self, allow, dirty; long long eps; IVec s, vres; std::string vkind, skind, outcome; long long sres;
   std::string why; bool returned_but_refusal_expected = false;
   explicit Ctx(const vj::Value& cc) : c(cc)
   {
     op = c["op"].as_str(); an = c["an"].as_int(); ad = c["ad"].as_int(); den = c["den"].as_int(); self = c["self"].as_bool();
     allow = c["allow"].as_bool(); eps = c["eps"].as_int(); s = c["s"].ints(); vres = c["vres"].ints(); vkind = c["vkind"].as_str();
     skind = c["skind"].as_str(); sres = c["sres"].as_int(); outcome = c["outcome"].as_str();
+    bn = c.get_int("bn", 1); bd = c.get_int("bd", 1); dirty = c.has("dirty") && c["dirty"].as_bool();
   }
   bool fail(const std::string& w) { if(why.empty()) why = w; return false; }
 };
@@ -194,12 +198,108 @@ bool run_fmt(Ctx& k, const std::string& tag0)
   return same_matrix<T>(k, X, c["XP"], k.den, tag + ": " + op + " X afterwards");
 }
 
+// ---------------------------------------------------------------------------------------------------------------
+// DenseMatrix: groups "delem" (axpy, scale, norm_frobenius) and "dmul" (the four multiply overloads)
+// ---------------------------------------------------------------------------------------------------------------
+template<class DT, class IT>
+bool dense_from(Ctx& k, DenseMatrix<DT, IT>& a, const vj::Value& J, const std::string& tag)
+{
+  const Index m = Index(J["mb"].as_int()), n = Index(J["nb"].as_int());
+  if(m == 0 || n == 0 || Index(J["nnz"].as_int()) != m * n || J["bh"].as_int() != 1 || J["bw"].as_int() != 1)
+    return k.fail(tag + ": the specification's matrix is not a dense m x n matrix with m, n >= 1");
+  a = make_dense<DT, IT>(m, n, J["rep"]);   // row-major values = the value array of the full pattern
+  return true;
+}
+
+template<class DT, class IT>
+bool same_dense(Ctx& k, const DenseMatrix<DT, IT>& a, const vj::Value& J, long long den, const std::string& tag)
+{
+  const Index m = Index(J["mb"].as_int()), n = Index(J["nb"].as_int());
+  if(a.rows() != m || a.columns() != n) return k.fail(tag + ": dimensions " + std::to_string(a.rows()) + "x" + std::to_string(a.columns()));
+  if(a.used_elements() != m * n || a.size() != m * n) return k.fail(tag + ": used_elements()/size() " + std::to_string(a.used_elements()) + "/" + std::to_string(a.size()));
+  IVec va = J["rep"]["va"].ints();
+  if(va.size() != std::size_t(m * n)) return k.fail(tag + ": specification record is not dense");
+  const DT* v = a.elements();
+  std::vector<double> g(va.size()); bool ok = true;
+  for(std::size_t i = 0; i < va.size(); ++i) { g[i] = double(v[i]); if(!(g[i] * double(den) == double(va[i]))) ok = false; }
+  if(!ok) return k.fail(tag + ": values " + ds(g) + " expected " + vs(va) + "/" + std::to_string(den));
+  return true;
+}
+
+template<class DT, class IT>
+bool run_dense(Ctx& k, const std::string& tag0)
+{
+  typedef DenseMatrix<DT, IT> DM; typedef CsrT<DT, IT> CT;
+  const std::string tag = tag0 + "/dense";
+  const vj::Value& c = k.c; const std::string& op = k.op; const std::string grp = c["grp"].as_str();
+  DM T;
+  if(!dense_from(k, T, c["X"], tag + ": X")) return false;
+  if(!same_dense(k, T, c["X"], 1, tag + ": construction of X")) return false;
+  if(k.dirty)
+  {
+    // the prior contents are arbitrary (the constructor DenseMatrix(m, n) does not initialise): non-finite bit patterns
+    DT* e = T.elements();
+    for(Index i = 0; i < T.size(); ++i) e[i] = (i % 2 == 0) ? std::numeric_limits<DT>::quiet_NaN() : std::numeric_limits<DT>::infinity();
+  }
+  const DT alpha = DT(double(k.an) / double(k.ad)), beta = DT(double(k.bn) / double(k.bd));
+
+  if(grp == "delem")
+  {
+    DM Y; if(!dense_from(k, Y, c["Y"], tag + ": Y")) return false;
+    vj::Value ysnap = raw_snapshot(Y);
+    const DM& src = k.self ? T : Y;
+    if(op == "axpy") T.axpy(src, alpha);
+    else if(op == "scale") T.scale(src, alpha);
+    else if(op == "norm_frobenius") { if(!same_scalar<DT>(k, double(T.norm_frobenius()), tag)) return false; }
+    else return k.fail(tag + ": unknown operation " + op);
+    if(raw_snapshot(Y) != ysnap) return k.fail(tag + ": " + op + " modified the operand matrix");
+    return same_dense(k, T, c["XP"], k.den, tag + ": " + op + " X afterwards");
+  }
+
+  // products: x = D (dense or CSR), y = B, z = Y or the result matrix itself
+  DM y; if(!dense_from(k, y, c["B"], tag + ": y")) return false;
+  vj::Value ysnap = raw_snapshot(y);
+  if(op == "multiply_dd" || op == "multiply_ddz")
+  {
+    DM x; if(!dense_from(k, x, c["D"], tag + ": x")) return false;
+    vj::Value xsnap = raw_snapshot(x);
+    if(op == "multiply_dd") T.multiply(x, y);
+    else if(k.self) T.multiply(x, y, T, alpha, beta);
+    else
+    {
+      DM z; if(!dense_from(k, z, c["Y"], tag + ": z")) return false;
+      vj::Value zsnap = raw_snapshot(z);
+      T.multiply(x, y, z, alpha, beta);
+      if(raw_snapshot(z) != zsnap) return k.fail(tag + ": " + op + " modified z");
+    }
+    if(raw_snapshot(x) != xsnap) return k.fail(tag + ": " + op + " modified x");
+  }
+  else if(op == "multiply_sd" || op == "multiply_sd_ab")
+  {
+    typename CT::MT x = CT::make(c["D"]);
+    if(!same_matrix<CT>(k, x, c["D"], 1, tag + ": construction of x")) return false;
+    vj::Value xsnap = raw_snapshot(x);
+    if(op == "multiply_sd") T.multiply(x, y);
+    else T.multiply(x, y, alpha, beta);
+    if(raw_snapshot(x) != xsnap) return k.fail(tag + ": " + op + " modified x");
+  }
+  else return k.fail(tag + ": unknown operation " + op);
+  if(raw_snapshot(y) != ysnap) return k.fail(tag + ": " + op + " modified y");
+  return same_dense(k, T, c["XP"], k.den, tag + ": " + op + " X afterwards");
+}
+
 vj::Value run_case(const vj::Value& c)
 {
   Ctx k(c);
   const std::string fmt = c["fmt"].as_str();
   bool ok = false;
-  if(fmt == "csr")
+  const std::string grp0 = c["grp"].as_str();
+  if(grp0 == "delem" || grp0 == "dmul")
+  {
+    ok = run_dense<double, std::uint64_t>(k, "f64/u64") && run_dense<float, std::uint32_t>(k, "f32/u32")
+      && run_dense<double, std::uint32_t>(k, "f64/u32") && run_dense<float, std::uint64_t>(k, "f32/u64");
+  }
+  else if(fmt == "csr")
   {
     ok = run_fmt<CsrT<double, std::uint64_t>>(k, "f64/u64") && run_fmt<CsrT<float, std::uint32_t>>(k, "f32/u32")
       && run_fmt<CsrT<double, std::uint32_t>>(k, "f64/u32") && run_fmt<CsrT<float, std::uint64_t>>(k, "f32/u64");
